@@ -358,6 +358,7 @@ func (w *world) doRender(op M) M {
 	}
 	entry := opStrDef(op, "entry", "Render")
 	status, text := callRender(tg, entry)
+	renderCalls++
 	res := M{"fmt": tg.kind, "status": status, "empty": b2i(text == ""), "entry": entry}
 	if status == "panic" {
 		res["panic"] = text
